@@ -1276,6 +1276,8 @@ class DecoderLayout:
                     rej = (b_.args[0].id, a_, 0 if op == "GtE" else -1)
                 elif is_len(a_) and not is_len(b_) and op in ("LtE", "Lt"):
                     rej = (a_.args[0].id, b_, 0 if op == "LtE" else -1)
+            if isinstance(t, ast.UnaryOp) and isinstance(t.op, ast.Not) and isinstance(t.operand, ast.Name) and t.operand.id in self.cursors:
+                rej = (t.operand.id, ast.Constant(value=1), -1)        # `not rest`: nothing left, len(rest) < 1
             if rej is None:
                 raise AnalysisError("decoder of %s: raise under a test that is not a length test (%s)" % (self.cls.name, U(t)))
             T = self.lin(rej[1]).add(rej[2])
